@@ -19,7 +19,7 @@ using namespace nodesim;
 
 namespace {
 
-enum { P_TX = 400, P_BLOCK, P_HEADERS, P_NOISE, P_TICK, P_CLOCK, P_VALID_BLOCK, P_NOPS_END };
+enum { P_TX = 400, P_BLOCK, P_HEADERS, P_NOISE, P_TICK, P_CLOCK, P_VALID_BLOCK, P_FORK, P_NOPS_END };
 enum TxKind { TK_VALID = 0, TK_BAD_SIG, TK_NONSTANDARD, TK_ORPHAN, TK_CONFLICT, TK_UNDECODABLE, TK_OVERSIZE, TK_WITNESS_STRIPPED, TK_PREMATURE, TK_BELOW_FEE, TK_DUPLICATE, TK_NKINDS };
 static const char* kTxKind[TK_NKINDS] = {"valid", "bad-signature", "non-standard", "orphan", "conflicting", "undecodable", "oversize", "witness-stripped", "premature-coinbase-spend", "below-min-fee", "duplicate"};
 static const ConnectionType kConn[] = {ConnectionType::INBOUND, ConnectionType::OUTBOUND_FULL_RELAY, ConnectionType::MANUAL, ConnectionType::BLOCK_RELAY, ConnectionType::INBOUND, ConnectionType::OUTBOUND_FULL_RELAY};
@@ -36,6 +36,7 @@ std::string Describe(const Op& op)
     case P_NOISE: snprintf(b, sizeof b, "peer#%ld sends noise(kind=%ld)", (long)op.arg(0), (long)op.arg(1)); break;
     case P_TICK: snprintf(b, sizeof b, "msghand tick peer#%ld x%ld", (long)op.arg(0), (long)op.arg(1)); break;
     case P_CLOCK: snprintf(b, sizeof b, "clock += %lds", (long)op.arg(0)); break;
+    case P_FORK: snprintf(b, sizeof b, "peer#%ld pushes an unsolicited low-work block with a connect-time defect, then peer#%ld announces a longer branch through it and serves the requested blocks (seed=%ld)", (long)op.arg(0), (long)op.arg(1), (long)op.arg(2)); break;
     default: snprintf(b, sizeof b, "?");
     }
     return b;
@@ -62,7 +63,7 @@ Plan Gen(uint64_t seed, Tier tier)
     int nops = (int)rng.range(20, tier == Tier::THOROUGH ? 120 : 60);
     for (int i = 0; i < nops; ++i) {
         Op op;
-        op.kind = P_TX + (int)rng.pick({50, 10, 8, 8, 10, 3, 6});
+        op.kind = P_TX + (int)rng.pick({50, 10, 8, 8, 10, 3, 6, 4});
         switch (op.kind) {
         case P_TX: op.a = {(int64_t)rng.below(npeers), (int64_t)rng.below(TK_NKINDS), (int64_t)(rng.next() >> 16)}; break;
         case P_BLOCK: op.a = {(int64_t)rng.below(npeers), (int64_t)rng.pick({0, 8, 8, 4, 4, 4, 6, 4, 6, 6, 6, 3, 6, 6, 6, 6, 6, 8, 6, 6, 0, 0, 0, 5, 5, 5, 0}), (int64_t)(rng.next() >> 16)}; break;
@@ -71,6 +72,7 @@ Plan Gen(uint64_t seed, Tier tier)
         case P_NOISE: op.a = {(int64_t)rng.below(npeers), (int64_t)rng.below(6), (int64_t)(rng.next() >> 16)}; break;
         case P_TICK: op.a = {(int64_t)rng.below(npeers), (int64_t)rng.range(1, 3)}; break;
         case P_CLOCK: op.a = {(int64_t)rng.skewed(1, 1200)}; break;
+        case P_FORK: op.a = {(int64_t)rng.below(npeers), (int64_t)rng.below(npeers), (int64_t)(rng.next() >> 16)}; break;
         }
         p.ops.push_back(op);
     }
@@ -285,6 +287,65 @@ struct Sim {
                 ctx.evf("headers kind=%d from peer#%d -> disc=%d discouraged=%d", kind, p.idx, (int)p.node->fDisconnect.load(), (int)net->Discouraged(p));
                 Observe(Describe(op).c_str(), p.idx);
                 if (kind == 0) ExpectPunished(p, "sent headers with invalid proof of work");
+                break;
+            }
+            case P_FORK: {
+                // The sender of an invalid block must be the one punished even if somebody else showed the node the same block
+                // earlier without it being validated: peer A pushes block X (valid header, coinbase overpays: only ConnectBlock can
+                // tell) on a branch with LESS work than the tip, so the node ignores it; peer B then announces X and two blocks on top
+                // (more work than the tip), the node asks B for them, B serves them, X fails when it is connected.
+                SimPeer& b = *net->peers[op.mod(1, npeers)];
+                if (&b == &p || b.finalized || b.node->fDisconnect.load()) break;
+                int tip = ms.TipIdx();
+                int par = tip > 0 ? ms.cs.ref->blocks[tip].parent : -1;
+                int gp = par > 0 ? ms.cs.ref->blocks[par].parent : -1;
+                if (gp <= 0) break;
+                const uint64_t sd = (uint64_t)op.arg(2);
+                int x = ms.cs.MineOn(gp, 0, sd, D_CB_OVERPAY, B_NONE, 1);
+                int y = ms.cs.MineOn(x, 0, sd + 1, D_NONE, B_NONE, 1);
+                int z = ms.cs.MineOn(y, 0, sd + 2, D_NONE, B_NONE, 1);
+                auto blk = [&](int i) -> const CBlock& { return *ms.cs.ref->blocks[i].block; };
+                PreTick(p, "before unsolicited fork block");
+                if (p.node->fDisconnect.load()) break;
+                st[p.idx].nontx_input = true;
+                net->SendMsg(p, NetMsgType::BLOCK, TX_WITH_WITNESS(blk(x)));
+                TickPeer(p, 2);
+                Observe("unsolicited low-work block", p.idx);
+                const bool a_gone = p.node->fDisconnect.load();
+                if (WITH_LOCK(cs_main, const CBlockIndex* pi = ms.node().cm().m_blockman.LookupBlockIndex(blk(x).GetHash()); return pi && (pi->nStatus & BLOCK_HAVE_DATA))) { ctx.probe("fork_block_was_stored"); break; }
+                PreTick(b, "before fork headers");
+                if (b.node->fDisconnect.load()) break;
+                net->Take(b, NetMsgType::GETDATA);
+                st[b.idx].nontx_input = true;
+                std::vector<CBlock> hdrs{CBlock(static_cast<const CBlockHeader&>(blk(x))), CBlock(static_cast<const CBlockHeader&>(blk(y))), CBlock(static_cast<const CBlockHeader&>(blk(z)))};
+                net->SendMsg(b, NetMsgType::HEADERS, TX_WITH_WITNESS(hdrs));
+                for (int i : {x, y, z}) ms.cs.header_given[i] = 1;
+                bool served_x = false;
+                for (int round = 0; round < 3 && !served_x; ++round) {
+                    TickPeer(b, 2);
+                    if (b.node->fDisconnect.load()) break;
+                    for (const SentMsg& m : net->Take(b, NetMsgType::GETDATA)) {
+                        DataStream ds{m.payload};
+                        std::vector<CInv> invs;
+                        ds >> invs;
+                        for (const CInv& inv : invs) {
+                            if (!inv.IsGenBlkMsg()) continue;
+                            for (int i : {x, y, z})
+                                if (inv.hash == blk(i).GetHash()) {
+                                    net->SendMsg(b, NetMsgType::BLOCK, TX_WITH_WITNESS(blk(i)));
+                                    ms.cs.delivered[i] = 1;
+                                    if (i == x) served_x = true;
+                                }
+                        }
+                    }
+                }
+                if (!served_x) { ctx.probe("fork_not_requested_from_announcer"); Observe("fork announced", b.idx); break; }
+                TickPeer(b, 4);
+                ctx.evf("fork: X=#%d unsolicited from peer#%d (gone=%d), served on request by peer#%d -> disc=%d discouraged=%d", x, p.idx, (int)a_gone, b.idx, (int)b.node->fDisconnect.load(), (int)net->Discouraged(b));
+                ctx.probe("invalid_block_served_after_unsolicited_copy");
+                Observe(Describe(op).c_str(), b.idx);
+                ExpectPunished(b, "served, on request, a full block that is consensus-invalid when validated (an unsolicited copy from another peer had been ignored earlier)");
+                ms.cs.CheckAll(Describe(op).c_str());
                 break;
             }
             case P_NOISE: {
